@@ -353,7 +353,11 @@ func genHistory(r *rand.Rand, p Profile) *History {
 		if op.Export {
 			home = 0
 		}
-		f.Results = g.randResults(1+g.r.Intn(3)*g.r.Intn(2), true)
+		nres := 1 + g.r.Intn(3)*g.r.Intn(2)
+		if g.coin(0.08) {
+			nres = 4 + g.r.Intn(2) // wide constructors: singles, named, group members and flatten results at once
+		}
+		f.Results = g.randResults(nres, true)
 		if len(f.Results) == 0 {
 			f.Results = []Res{{K: g.randSingleKey()}}
 		}
@@ -447,7 +451,11 @@ func genHistory(r *rand.Rand, p Profile) *History {
 	// parameters (after all results are planned)
 	for i := range ctors {
 		c := &ctors[i]
-		c.f.Params = g.randParams(g.r.Intn(4), c.op.Scope, i)
+		npar := g.r.Intn(4)
+		if g.coin(0.06) {
+			npar = 5 + g.r.Intn(3)
+		}
+		c.f.Params = g.randParams(npar, c.op.Scope, i)
 		c.f.Variadic = g.coin(p.PVariadic)
 		g.addFaults(c.f)
 		g.randErrPos(c.f)
